@@ -10,7 +10,10 @@ def handle (j : Json) : Except String String := do
   let others ← match j.getObjVal? "others" with
     | .ok a => (do (← jArr a).toList.mapM (fun s => do (← jArr s).toList.mapM jNat))
     | .error _ => pure []
-  let w : World := ⟨segs, others⟩
+  let threads ← match j.getObjVal? "threads" with
+    | .ok a => (do (← jArr a).toList.mapM jNat)
+    | .error _ => pure []
+  let w : World := ⟨segs, others, threads⟩
   let k := (j.getObjVal? "k" >>= Json.getStr?).toOption.getD "slice"
   match k with
   | "slice" =>
